@@ -15,7 +15,7 @@
    with go/types on this tree (machinery fault, never a finding);
    cases outside the property's quantifier (in_domain = false) never gate.                  *)
 From Coq Require Import List Bool String NArith Arith.
-From GT Require Import Base.Verdict IFaceModel.
+From GT Require Import Base.Verdict IFaceModel IFaceParse.
 Import ListNotations.
 Local Open Scope string_scope.
 
@@ -133,10 +133,11 @@ Definition obs_aliases_ok (c : c19_case) : bool :=
   nodupb als && forallb (fun a => negb (mem a (cc_locals c))) als.
 
 (* the environment of the handler: current code (on-demand imports get an unused name) *)
-Definition c_env (c : c19_case) : env := Env (cc_self c) (cc_pkg_imports c) (cc_locals c) true.
+Definition c_env0 (c : c19_case) : env := Env (cc_self c) (cc_pkg_imports c) (cc_locals c) true [].
+Definition c_env (c : c19_case) : env := handler_env (c_env0 c) (cc_specs c).
 
 Definition model_of (c : c19_case) : list rmeth * table :=
-  find_interface (c_env c) (cc_specs c) (cc_priv c) (cc_emb c)
+  find_interface (c_env0 c) (cc_specs c) (cc_priv c) (cc_emb c)
                  (cc_tree c).
 
 (* the domain is a predicate on the INPUT only: embedding at most two levels deep, types and
@@ -190,6 +191,48 @@ Definition spec_ok (c : c19_case) : bool :=
   methods_ok c && forallb (names_ok c) (cc_obs c) && obs_aliases_ok c && cc_compiled c.
 
 (* ---- model side ---- *)
+(* the observed Signature() text, read back by the parser of IFaceParse (the method name replaced
+   by `func`), is the tree of the model's reference: the text means what the model says it means *)
+Definition pty_eqb_dec (a b : option pty) : bool :=
+  match a, b with
+  | Some x, Some y => (fix eq (x y : pty) {struct x} : bool :=
+                         match x, y with
+                         | PName q n l, PName q' n' l' =>
+                             (match q, q' with Some a, Some b => String.eqb a b | None, None => true | _, _ => false end) &&
+                             String.eqb n n' &&
+                             (fix go (l l' : list pty) {struct l} : bool :=
+                                match l, l' with
+                                | [], [] => true
+                                | u :: r, u' :: r' => eq u u' && go r r'
+                                | _, _ => false
+                                end) l l'
+                         | PPtr u, PPtr u' | PSlice u, PSlice u' => eq u u'
+                         | PArray n u, PArray n' u' => N.eqb n n' && eq u u'
+                         | PMap k v, PMap k' v' => eq k k' && eq v v'
+                         | PFunc i o, PFunc i' o' =>
+                             (fix goi (l l' : list (string * bool * pty)) {struct l} : bool :=
+                                match l, l' with
+                                | [], [] => true
+                                | (n, v, u) :: r, (n', v', u') :: r' => String.eqb n n' && Bool.eqb v v' && eq u u' && goi r r'
+                                | _, _ => false
+                                end) i i' &&
+                             (fix go (l l' : list pty) {struct l} : bool :=
+                                match l, l' with
+                                | [], [] => true
+                                | u :: r, u' :: r' => eq u u' && go r r'
+                                | _, _ => false
+                                end) o o'
+                         | _, _ => false
+                         end) x y
+  | _, _ => false
+  end.
+
+Definition sig_parses (o : obs_meth) (m : rmeth) : bool :=
+  match strip (rm_name m) (om_sig o) with
+  | Some rest => pty_eqb_dec (parse ("func" ++ rest)) (Some (to_pty (EFunc (rm_in m) (rm_out m))))
+  | None => false
+  end.
+
 Definition meth_eq (o : obs_meth) (m : rmeth) : bool :=
   String.eqb (om_sig o) (signature m) &&
   list_eqb (om_in o) (map (fun p : string * bool * texpr => fst (fst p)) (rm_in m)) &&
@@ -212,6 +255,13 @@ Definition model_eq_with (mo : list rmeth * table) (c : c19_case) : bool :=
 
 Definition model_eq (c : c19_case) : bool := model_eq_with (model_of c) c.
 
+(* inside the quantifier: every observed signature text parses to the tree of the model's reference *)
+Definition sigs_parse_with (mo : list rmeth * table) (c : c19_case) : bool :=
+  forallb (fun o => match filter (fun m => String.eqb (rm_name m) (om_name o)) (fst mo) with
+                    | [m] => sig_parses o m
+                    | _ => false
+                    end) (cc_obs c).
+
 (* go/types' method set of *T against the selector rule as formalised in the model *)
 Definition goms_ok (c : c19_case) : bool :=
   forallb (fun n => Bool.eqb (go_ms (cc_tree c) n) (mem n (cc_goms c)))
@@ -220,7 +270,7 @@ Definition goms_ok (c : c19_case) : bool :=
 Definition c19_judge (c : c19_case) : nat :=
   if negb (goms_ok c && ifaces_ok c) then 3
   else if negb (in_domain c) then 0
-  else verdict (spec_ok c) (model_eq c && sigs_ok c).
+  else verdict (spec_ok c) (model_eq c && sigs_ok c && sigs_parse_with (model_of c) c).
 
 (* informational judgement of the cases outside the quantifier: model comparison only *)
 Definition c19_judge_info (c : c19_case) : nat :=
@@ -231,7 +281,7 @@ Definition c19_judge_info (c : c19_case) : nat :=
 Definition c19_judge_all (c : c19_case) : nat :=
   let mo := model_of c in
   if negb (goms_ok c && ifaces_ok c) then 3
-  else if in_domain_with mo c then verdict (spec_ok c) (model_eq_with mo c && sigs_ok c)
+  else if in_domain_with mo c then verdict (spec_ok c) (model_eq_with mo c && sigs_ok c && sigs_parse_with mo c)
   else if model_eq_with mo c then 10 else 12.
 
 Definition c19_nontrivial (c : c19_case) : bool :=
